@@ -112,10 +112,6 @@ def compare(run, cname, path, text, impl_defs, impl_usages, same_model, cases, f
         n += 1
     # the two known deviations show in the oracle itself (it follows the implementation's documented
     # reading for counting) — report them from the oracle's annotations
-    if any(u.get("also_fixture") for u in sp["usages"]):
-        report("a fixture whose function is named test_* has each parameter recorded twice (as fixture dependency and as test parameter)", "C03-E5-test-named-fixture-dup")
-    if any(u.get("default") for u in sp["usages"]):
-        report("parameters with default values are recorded as fixture requests", "C03-default-param-requested")
     return n
 
 
